@@ -7,7 +7,7 @@
    acc=ok is the constant the correct code gives (the C driver compares every accessor with the
    fields over whole index ranges); q= is the model's value of the read-only API after the
    operation: coq/C06/StrAccDefs.v [probe_str k] for both objects (a_str_ptr, a_str_len, a_str_mem,
-   a_str_at_, a_str_at, a_str_of at indices derived from k, a_utf_len with and without stop) and
+   a_str_at_, a_str_at, a_str_of at indices derived from k (StrAccDefs.mix), a_utf_len with and without stop) and
    [probe_cmp k] (a_str_cmp_ on a prefix of A against B).  Pointers: '-' NULL, offset into the
    block, 'F' undefined pointer arithmetic in the model; 'x' = not called.
    "mk ..." (how the C objects are built) does not concern the model; "catv" is "catf". *)
